@@ -141,6 +141,11 @@ func c03job(rr interface{ Intn(int) int }, it *corpus.Item, mkSplits func(total,
 			line += " mode=compact sbuf=" + fmt.Sprint([]int{1, 16, 4096}[rr.Intn(3)]) + " dbuf=" + fmt.Sprint([]int{40000, 70000}[rr.Intn(2)])
 		}
 	}
+	// every second job hands the decoder exact-size source allocations (the red
+	// zone sits right behind the last supplied byte at every split point)
+	if !strings.Contains(line, "mode=compact") && !isHasher(it.Kind) && rr.Intn(2) == 0 {
+		line += " salloc=exact"
+	}
 	return line + "\n"
 }
 
